@@ -311,6 +311,13 @@ def _derived(n, st, root_out, props, vios, res):
             h.add_edges_from(reversed(list(g.edges(data=True))))
             return h
         variants.append(("reversed-insertion", rev))
+
+        def prepartitioned():
+            # stale partition data on the input (the public partition helper applied by the caller, as in docs/demo)
+            from tucan.canonicalization import partition_molecule_by_attribute
+
+            return partition_molecule_by_attribute(g, "atomic_number")
+        variants.append(("pre-partitioned-input", prepartitioned))
     for name, mk in variants:
         res["transitions"] += 1
         try:
